@@ -239,8 +239,7 @@ func c09Pairing(p *load.Program, r *oblig.Report) {
 			}
 			if g, ok := ins.(*ssa.Go); ok {
 				goIns = ins
-				if mc, ok := g.Call.Value.(*ssa.MakeClosure); ok {
-					cl := mc.Fn.(*ssa.Function)
+				if cl := goBody(g); cl != nil && len(cl.Blocks) > 0 {
 					for _, i2 := range an.Blocks(cl)[0].Instrs {
 						if d, ok := i2.(*ssa.Defer); ok && d.Call.StaticCallee() != nil && an.ShortFunc(d.Call.StaticCallee()) == "(*sync.WaitGroup).Done" {
 							doneDeferred = true
@@ -332,6 +331,16 @@ var goTable = map[string]string{
 	"(*kafka.Dialer).lookupHost$1":           "resolver lookup helper bounded by ctx",
 }
 
+// goBody is the function a go statement runs: a literal, a method value, or a named function or method.
+func goBody(g *ssa.Go) *ssa.Function {
+	if mc, ok := g.Call.Value.(*ssa.MakeClosure); ok {
+		if f, isF := mc.Fn.(*ssa.Function); isF {
+			return an.Unbound(f)
+		}
+	}
+	return g.Call.StaticCallee()
+}
+
 func c09Census(p *load.Program, r *oblig.Report) {
 	const rule = "C09.R3 goroutine census"
 	root := p.SSAPkg("")
@@ -353,7 +362,28 @@ func c09Census(p *load.Program, r *oblig.Report) {
 			n++
 			name := an.CalleeName(&g.Call)
 			if mc, ok := g.Call.Value.(*ssa.MakeClosure); ok {
-				name = an.ShortFunc(mc.Fn.(*ssa.Function))
+				name = an.ShortFunc(an.Unbound(mc.Fn.(*ssa.Function)))
+			} else if sc := g.Call.StaticCallee(); sc != nil && an.IsNew(sc) {
+				// the body of a reviewed `go func() { … }()` moved into a function that did not exist at review time:
+				// it is the goroutine the enclosing function used to start, if that is unambiguous
+				var cands []string
+				for k := 1; k <= 9; k++ {
+					c := fmt.Sprintf("%s$%d", an.ShortFunc(fn), k)
+					if _, reviewed := goTable[c]; reviewed {
+						stillThere := false
+						for _, anon := range fn.AnonFuncs {
+							if an.ShortFunc(anon) == c {
+								stillThere = true
+							}
+						}
+						if !stillThere {
+							cands = append(cands, c)
+						}
+					}
+				}
+				if len(cands) == 1 {
+					name = cands[0]
+				}
 			} else if g.Call.StaticCallee() == nil && !g.Call.IsInvoke() {
 				// a function value: name it by the parameter it comes from
 				name = "dynamic:?"
